@@ -320,6 +320,12 @@ of the RFC shape (what the socket delivers: the first `maxReq` bytes) -/
 def requestPortOK2 (data : Bytes) (replies : List Bytes) (nTransfers : Nat) (loggedException : Bool) : Bool :=
   requestPortOK replies nTransfers loggedException && (nTransfers == 0 || rfcShape (data.take maxReq))
 
+/-- a handler raised while being asked whether it accepts (not a fault of the client's bytes): the
+exception may be logged, but nothing is sent, no transfer is started (and the port keeps serving: the
+next datagram is judged on its own) -/
+def requestPortFaultOK (replies : List Bytes) (nTransfers : Nat) : Bool :=
+  replies.isEmpty && nTransfers == 0
+
 /-- the request port's own reply for a model result -/
 def replyOf : ReqResult → List Bytes
   | .error c => [errorPacket c []]
